@@ -474,3 +474,14 @@ def ob_f(ob):
     for species, uhf in cases:
         grad = _check_contraction(ob, species, uhf)
     ob.sample({"grad_term": str(z3.simplify(grad[0, 0]))[:300]})
+
+
+# ---- shared obligation: the autodiff force of an excited state is -d/dx of the energy this expression returns, so it equals the reported Etot's derivative only if the expression is the response-matrix quadratic form ----
+from . import C16 as _C16_mod  # noqa: E402
+
+
+@obligation(PID, "g", title="[shared with C16.c] " + [e for e in __import__("engine.ob", fromlist=["REGISTRY"]).REGISTRY["C16"] if e[1] is _C16_mod.ob_c][0][3])
+def ob_g_shared(ob):
+    """the autodiff force of an excited state is -d/dx of the energy this expression returns, so it equals the reported Etot's derivative only if the expression is the response-matrix quadratic form"""
+    ob.note("this obligation is the one registered as C16.c; it is also decided here because the autodiff force of an excited state is -d/dx of the energy this expression returns, so it equals the reported Etot's derivative only if the expression is the response-matrix quadratic form")
+    _C16_mod.ob_c(ob)
